@@ -175,6 +175,11 @@ def judge(spec: dict, res: dict, mode: str):
         if pt["n"] != want:
             return "violation", ("wrong-result", f"{mode}: {pt['n']} solutions, expected {want}: {pt['solutions'][:3]}")
         return "ok-equal", ""
+    needs = spec.get("needs")
+    if needs is not None and isinstance(spec["height"], int) and spec["height"] >= 1 and needs > spec["height"]:
+        # the search provably needs more levels than configured: an answer without an error, even a right one, means
+        # the overflow went unreported (it ran in the spare levels or past the arrays)
+        return "violation", ("capacity-exceeded-not-reported", f"{mode}: the search needs {needs} stack levels, stack_max_height is {spec['height']}, yet no error was raised (answer {str(pt['solutions'][:1])[:80]})")
     exp = expected_first(spec)
     if exp is not None and pt["solutions"][:1] != [exp]:
         return "violation", ("wrong-result", f"{mode}: height {spec['height']} gives first solution {str(pt['solutions'][:1])[:120]}, the definition gives {str(exp)[:60]}")
